@@ -4,19 +4,34 @@
 //
 // Import side. A real peerstream.Server (processResponse -> handleUpsert -> handleUpdateService /
 // handleUpsertExportedServiceList) is wired to a Backend that applies CatalogRegister /
-// CatalogDeregister as Raft commands to a real FSM + state store. Every case builds a prior
-// catalog (local data, other peers' data, earlier imports) and then feeds a sequence of
-// exported-service upserts, "deletes" (empty upserts) and exported-service-list updates, mostly
-// snapshots of a small simulated exporting cluster that mutates between messages (instances move
-// between nodes, nodes are shared by services, node- and service-level checks come and go, nodes
-// are renamed / re-identified, names collide with local and other-peer rows, optionally names
-// that differ only in case). After every message the whole catalog is dumped; the Lean model
-// (CV.Peer, driver cvd_c17) must reproduce result, command log, dump and CheckServiceNodes view.
+// CatalogDeregister as Raft commands to a real FSM + state store. Streams, in this order:
+//   - corpus: one fixed witness per known finding (known_findings.txt), so that every run shows them;
+//   - thorough tier: every (prior, new) snapshot pair of a small scope (runExhaustive);
+//   - generated cases: a random prior catalog (local rows, other peers' rows, earlier imports, all drawn
+//     from the same small name universe so that names collide) and 3-8 messages: exported-service
+//     upserts, "deletes" (empty upserts) and exported-service-list updates, taken from a small simulated
+//     exporting cluster that mutates between messages (instances move between nodes, nodes are shared by
+//     services, node- and service-level checks come and go, nodes are renamed / re-identified, instance
+//     ids change service) or arbitrary well-formed snapshots; checks raw or flattened as today's exporter
+//     does; 12% of the cases use names that differ only in case — outside the model's domain, these run
+//     through the monitors only and emit no line;
+//   - malformed stream: snapshots no exporter sends (panics, failing registrations) and messages rejected
+//     at protocol level.
 //
-// Export side. Store.ExportedServicesForPeer over generated exported-services entries (exact,
-// wildcard, several peers, the "consul" name), local registrations and discovery chains.
+// After every message the whole catalog is dumped; the Lean model (CV.Peer, driver cvd_c17) must reproduce
+// result, command log (sorted), dump and CheckServiceNodes view. Snapshots go to the model in the node
+// order the implementation used (Go map iteration), read off the command log.
 //
-// Monitors (independent of the model) restate the property on the implementation: see mon*.
+// Export side. Store.ExportedServicesForPeer over generated exported-services entries (exact, wildcard,
+// several peers, the "consul" name, non-peer consumers), local registrations and discovery chains.
+//
+// Monitors (independent of the model) restate the property on the implementation: every command carries
+// the stream's peer (monCalls); rows of other peers and local rows incl. Raft indexes are byte-identical
+// before/after (others); CheckServiceNodes == received snapshot, absent entries removed (monExact); nodes
+// go iff unused (monNodes); other services of the peer untouched (monOther); list prunes the unlisted and
+// keeps the listed (monList); no state-store panic (monPanics); export only to consumers (runExportCase).
+// A monitor failure keeps its generic signature unless its classifier has verified the history shape of a
+// known mechanism.
 package main
 
 import (
@@ -97,9 +112,9 @@ type backend struct {
 func (b *backend) Subscribe(*stream.SubscribeRequest) (*stream.Subscription, error) {
 	return nil, fmt.Errorf("not used")
 }
-func (b *backend) IsLeader() bool                                    { return true }
-func (b *backend) SetLeaderAddress(string)                           {}
-func (b *backend) GetLeaderAddress() string                          { return "" }
+func (b *backend) IsLeader() bool                                     { return true }
+func (b *backend) SetLeaderAddress(string)                            {}
+func (b *backend) GetLeaderAddress() string                           { return "" }
 func (b *backend) ValidateProposedPeeringSecret(string) (bool, error) { return true, nil }
 func (b *backend) PeeringSecretsWrite(*pbpeering.SecretsWriteRequest) error {
 	return nil
@@ -148,6 +163,8 @@ type world struct {
 	be  *backend
 	mst *peerstream.MutableStatus
 	idx uint64
+	// panics recovered while applying a Raft command
+	panics []string
 }
 
 func newWorld() *world {
@@ -169,12 +186,19 @@ func newWorld() *world {
 }
 
 // apply sends one Raft command through the real FSM, as the leader's raftApplyMsgpack does.
-func (w *world) apply(t structs.MessageType, req any) error {
-	buf, err := structs.Encode(t, req)
-	if err != nil {
-		panic(err)
+func (w *world) apply(t structs.MessageType, req any) (err error) {
+	buf, e := structs.Encode(t, req)
+	if e != nil {
+		panic(e)
 	}
 	w.idx++
+	defer func() {
+		// the FSM does not panic by contract on these commands; a panic is reported by the monitors
+		if r := recover(); r != nil {
+			w.panics = append(w.panics, fmt.Sprint(r))
+			err = fmt.Errorf("panic in the state store: %v", r)
+		}
+	}()
 	res := w.f.Apply(&raft.Log{Index: w.idx, Term: 1, Type: raft.LogCommand, Data: buf})
 	if e, ok := res.(error); ok && e != nil {
 		return e
@@ -188,6 +212,8 @@ func errEnum(err error) string {
 	}
 	m := err.Error()
 	switch {
+	case strings.Contains(m, "panic in the state store"):
+		return "err:store-panic"
 	case strings.Contains(m, "Missing service registration"):
 		return "err:missing-service"
 	case strings.Contains(m, "Missing node registration"):
@@ -354,7 +380,7 @@ func mkExportedService(is []inst) *pbpeerstream.ExportedService {
 	for _, i := range is {
 		// what the exporter sends: its own (local) rows, datacenter of the exporter, no Raft indexes
 		c := &structs.CheckServiceNode{
-			Node: &structs.Node{ID: types.NodeID(i.node.id), Node: i.node.name, Address: i.node.addr, Datacenter: "dc1"},
+			Node:    &structs.Node{ID: types.NodeID(i.node.id), Node: i.node.name, Address: i.node.addr, Datacenter: "dc1"},
 			Service: mkNodeService(i.svc, ""),
 		}
 		for _, k := range i.chks {
@@ -936,10 +962,10 @@ func report(run *hx.Run, sig, desc string, replay []string) {
 
 // explained: signatures whose classifier has verified the history shape of one known mechanism
 var explained = map[string]bool{
-	"import:stale-node-check:instance-id-replaced":                        true,
-	"import:stale-node-check:node-new-to-service":                         true,
-	"import:stale-service-check:instance-id-taken-from-other-service":     true,
-	"import:check-id-moved-between-instances":                             true,
+	"import:stale-node-check:instance-id-replaced":                    true,
+	"import:stale-node-check:node-new-to-service":                     true,
+	"import:stale-service-check:instance-id-taken-from-other-service": true,
+	"import:check-id-moved-between-instances":                         true,
 }
 
 func (m *monCtx) hasVariant(names ...string) bool {
@@ -969,6 +995,14 @@ func (m *monCtx) violate(sig, desc string, names ...string) {
 		sig = "import:names-differing-only-in-case"
 	}
 	report(m.run, sig, desc, m.replay)
+}
+
+// no catalog command may make the state store panic
+func (m *monCtx) monPanics() {
+	for _, p := range m.w.panics {
+		m.violate("import:state-store-panic", "a catalog command made the state store panic: "+p)
+	}
+	m.w.panics = nil
 }
 
 // every command the importer sends for peer p carries peer p
@@ -1247,6 +1281,8 @@ func genPrior(r *hx.RNG, run *hx.Run, w *world, u universe, importPeer string, i
 			run.Line(op, errEnum(err))
 		}
 		if mon != nil {
+			mon.replay = append(append([]string(nil), ops...), op)
+			mon.monPanics()
 			mon.noteInsts([]inst{{node: nd, chks: ks}})
 			if s != nil {
 				mon.note(s.sid, s.name)
@@ -1401,6 +1437,7 @@ func (se *session) list(p string, names []string) result {
 	se.emit(fmt.Sprintf("list %s %s", hx.EncS(p), hx.EncSList(names)), resLine(res))
 	se.emit("dump", w.dump())
 	mon.replay = se.hist
+	mon.monPanics()
 	mon.monCalls(p, res.calls)
 	if res.status == "ok" {
 		mon.monList(p, names, svcsB)
@@ -1435,6 +1472,7 @@ func (se *session) upd(p, name string, is []inst, kind string) result {
 	_, cs := w.csn(p, name)
 	se.emit(fmt.Sprintf("csn %s %s", hx.EncS(p), hx.EncS(name)), cs)
 	mon.replay = se.hist
+	mon.monPanics()
 	mon.monCalls(p, res.calls)
 	if after := w.others(p); after != othersBefore {
 		mon.violate("import:foreign-rows-modified:update", fmt.Sprintf("an update of %s for peer %s changed rows of another peer or local rows:\n-- before\n%s\n-- after\n%s", name, p, othersBefore, after))
@@ -1494,6 +1532,9 @@ func runImportCase(run *hx.Run, r *hx.RNG, cfg caseCfg) {
 			continue
 		}
 		name := hx.Pick(r, u.svcs)
+		if ns := x.names(); len(ns) > 0 && r.Chance(65) {
+			name = hx.Pick(r, ns) // mostly services the exporter currently has instances of
+		}
 		var is []inst
 		kind := "world"
 		switch {
@@ -1569,6 +1610,61 @@ func runCorpus(run *hx.Run) {
 		run.Tag("corpus:" + c.tag)
 		run.Case(strings.Join(se.hist, "\n"), true)
 	}
+}
+
+// ---------------------------------------------------------------- small scope, exhaustively (thorough tier)
+
+// Every (prior snapshot, new snapshot) pair of one service over 2 nodes x 3 instance slots x 2 checks (a node check
+// on n1, a service check on n1/a), with and without another imported service sharing node n1.
+func runExhaustive(run *hx.Run) int {
+	type cfg struct{ a, b, c, nc, c1 bool }
+	var cfgs []cfg
+	for m := 0; m < 32; m++ {
+		k := cfg{m&1 != 0, m&2 != 0, m&4 != 0, m&8 != 0, m&16 != 0}
+		if (k.nc && !k.a && !k.b) || (k.c1 && !k.a) {
+			continue
+		}
+		cfgs = append(cfgs, k)
+	}
+	snap := func(k cfg) []inst {
+		var out []inst
+		var ncs []chkDef
+		if k.nc {
+			ncs = []chkDef{{"n1", "nc", "", "", "passing"}}
+		}
+		if k.a {
+			ks := append([]chkDef(nil), ncs...)
+			if k.c1 {
+				ks = append(ks, chkDef{"n1", "c1", "a", "web", "warning"})
+			}
+			out = append(out, mkInst("n1", "", "10.0.0.1", "a", "web", 80, ks...))
+		}
+		if k.b {
+			out = append(out, mkInst("n1", "", "10.0.0.1", "b", "web", 80, ncs...))
+		}
+		if k.c {
+			out = append(out, mkInst("n2", "", "10.0.0.2", "a", "web", 80))
+		}
+		return out
+	}
+	n := 0
+	for _, shared := range []bool{false, true} {
+		for _, prior := range cfgs {
+			for _, next := range cfgs {
+				se := newSession(run, true)
+				if shared {
+					// another imported service lives on n1 and brought the node check along
+					se.upd("p1", "api", []inst{mkInst("n1", "", "10.0.0.1", "x", "api", 443, chkDef{"n1", "nc", "", "", "passing"})}, "exhaustive")
+				}
+				se.upd("p1", "web", snap(prior), "exhaustive")
+				se.upd("p1", "web", snap(next), "exhaustive")
+				run.Case(strings.Join(se.hist, "\n"), se.nontrivial)
+				n++
+			}
+		}
+	}
+	run.Tag("exhaustive:snapshot-pairs")
+	return n
 }
 
 // ---------------------------------------------------------------- malformed / protocol-level stream
@@ -1857,8 +1953,13 @@ func runExportCase(run *hx.Run, r *hx.RNG) {
 
 func main() {
 	run := hx.Start()
-	run.Rule = "one case = a fresh importing cluster (real FSM + state store + peerstream.Server), a random prior catalog (local, other peers, earlier imports) and 3-8 replication messages taken from a mutating simulated exporter (or arbitrary snapshots), each followed by a full catalog dump; or one exported-services configuration queried for 3 peers; distinct by the full op history; non-trivial = at least one catalog command was issued / at least one export entry exists"
+	run.Rule = "one case = a fresh importing cluster (real FSM + state store + peerstream.Server), a random prior catalog (local, other peers, earlier imports) and 3-8 replication messages taken from a mutating simulated exporter (or arbitrary snapshots), each followed by a full catalog dump and the monitors; or one exported-services configuration queried for 3 peers; plus 6 fixed corpus histories and, in the thorough tier, 968 exhaustive snapshot pairs; cases with names differing only in case (12%) run through the monitors only; distinct by the full op history; non-trivial = at least one catalog command was issued / at least one export entry exists"
 	runCorpus(run)
+	if run.Thorough() {
+		run.Extra["exhaustive"] = true
+		run.Extra["exhaustive_scope"] = "all (prior, new) snapshot pairs of one service over 2 nodes x 3 instance slots x {node check, service check}, with and without a second imported service on the shared node"
+		run.Extra["exhaustive_cases"] = runExhaustive(run)
+	}
 	n := run.Scale(260, 2600)
 	for i := 0; i < n; i++ {
 		r := run.RNG.Fork(uint64(i))
